@@ -342,7 +342,16 @@ def rule_4(ctx):
         ret = last_return(fnode)
         shape = _binop_of_return(ret, *params[:2]) if ret is not None and len(params) >= 2 else None
         if shape is None:
-            ctx.bad(fnode, construct, f'{fnode.name} does not end in `return {params[0] if params else "?"} (op) ...`')
+            from . import c09
+            v = ret.value if ret is not None else None
+            mirrored = (op in PY_CMPOP and isinstance(v, ast.Call) and isinstance(v.func, ast.Name)
+                        and v.func.id == c09.MIRROR.get(fnode.name) and len(v.args) == 2
+                        and [ast.unparse(a) for a in v.args] == [params[1], params[0]])
+            if mirrored and not c09.asymmetric_overrides(ctx):
+                ctx.ok(fnode, construct, 'mirrored delegation over a symmetric order')
+                continue
+            ctx.bad(fnode, construct, f'{fnode.name} does not end in `return {params[0] if params else "?"} (op) ...`'
+                    + (' (mirrored delegation, but the comparison overrides of Text are asymmetric)' if mirrored else ''))
             continue
         kind, opcls, left, right = shape
         want = PY_BINOP.get(op) or PY_CMPOP.get(op)
